@@ -188,6 +188,8 @@ def _tdvp_sweep_2site_(psi, H, dt=0.1, u=1j, env=None, opts_expmv=None, opts_svd
     r""" Perform sweep with 2-site TDVP update, see :meth:`tdvp` for description. """
 
     env, opts = _init_tdvp(psi, H, env, opts_expmv, precompute)
+    if normalize:
+        psi.factor = 1
 
     for to, dn in (('last', 1), ('first', 0)):
         for n in psi.sweep(to=to, dl=1):
@@ -211,6 +213,8 @@ def _tdvp_sweep_12site_(psi, H, dt=0.1, u=1j, env=None, opts_expmv=None, opts_sv
     """
 
     env, opts = _init_tdvp(psi, H, env, opts_expmv, precompute)
+    if normalize:
+        psi.factor = 1
 
     for to, dn in (('last', 1), ('first', 0)):
         update_two = False
